@@ -93,7 +93,7 @@ class Ctx:
     def assume(self, cond, why=''):
         self.eng.assume(cond, why)
 
-    def ensure(self, clause: str, cond, *, excuse: dict[str, Any] | None = None, note=''):
+    def ensure(self, clause: str, cond, *, excuse: dict[str, Any] | None = None, note='', z3_ms: int | None = None):
         """
         Obligation `<harness>.<clause>`.  `excuse` maps a known-finding id to the symbolic class of
         witnesses that finding covers; it only has an effect while that id is listed as `known` in
@@ -121,7 +121,7 @@ class Ctx:
                         ob2.model = ob.model
                         ob2.decisions = ob.decisions
                 return
-        eng.ensure(name, cond, note=note)
+        eng.ensure(name, cond, note=note, z3_ms=z3_ms)
 
     def canary(self, clause: str, cond):
         """A deliberately false postcondition: must be refuted on at least one path of every run."""
